@@ -121,10 +121,22 @@ class Recorder:
         info = self.last_info if reuse else AsyncServiceInfo(TYPE, recase(INST, st.get('sp', 0)))
         self.last_info = info
         self.ev('lookup', lid=lid, timeout=st['timeout'], forced=forced, reuse=reuse)
+        via = st.get('via', 'info') if not reuse else 'info'
+        nofields = False
         try:
-            ok = await info.async_request(self.host.zc, st['timeout'], qt)
+            if via == 'info':
+                ok = await info.async_request(self.host.zc, st['timeout'], qt)
+            else:
+                # the convenience entry points (same lookup behind them): they hand back the info object, or None
+                api = self.host.aiozc if via == 'aiozc' else self.host.zc
+                got = await api.async_get_service_info(TYPE, recase(INST, st.get('sp', 0)), st['timeout'], qt)
+                ok = got is not None
+                nofields = got is None            # a failed lookup hands back None: there is no object to read fields from
+                self.last_info = got
+                if got is not None:
+                    info = got
         except Exception as ex:  # noqa: BLE001
-            self.ev('ret', lid=lid, ok=False, exc=type(ex).__name__, server=0, port=0, prio=0, weight=0, text=0, addrs=[])
+            self.ev('ret', lid=lid, ok=False, exc=type(ex).__name__, server=0, port=0, prio=0, weight=0, text=0, addrs=[], nofields=True)
             return
         srv = low(info.server) if info.server else ''
         server = 1 if srv == low(H1) else (2 if srv == low(H2) else (3 if srv else 0))
@@ -139,7 +151,7 @@ class Recorder:
             hit = [i for i, v in VOCAB.items() if v[3] in ('a', 'aaaa') and v[2] == a]
             addrs.append(hit[0] if hit else -1)
         self.ev('ret', lid=lid, ok=bool(ok), server=server, port=info.port or 0, prio=info.priority or 0, weight=info.weight or 0,
-                text=text, addrs=sorted(addrs))
+                text=text, addrs=sorted(addrs), nofields=nofields)
 
     async def main(self) -> None:
         net = self.net
@@ -220,7 +232,7 @@ def gen_lookup(rng: random.Random, sid: str, thorough: bool = False) -> dict:
     for i in [srv, txt] + addr_ids + ([other_addr] if rng.random() < 0.4 else []):
         pre(i)
     evs.append((t0, {'op': 'lookup', 'timeout': timeout, 'forced': rng.choice(['none', 'none', 'none', 'QU', 'QM']),
-                     'sp': rng.randint(0, 2)}))
+                     'sp': rng.randint(0, 2), 'via': rng.choice(['info', 'info', 'aiozc', 'zc'])}))
     # records arriving while the lookup waits
     offs = [0, 1, 199, 200, 221, 320, 500, 1000, 1300, timeout - 1, timeout, timeout + 1, timeout + 500]
     for _ in range(rng.choice([0, 1, 2, 3, 4])):
